@@ -102,7 +102,7 @@ func randConfig(r *rand.Rand) config {
 			RegistryMaxSize:     max,
 			RegistryGrowStep:    []int{1, 7, 32, 1000}[r.Intn(4)],
 		},
-		ctx: []string{"none", "background", "counting"}[r.Intn(3)],
+		ctx: []string{"none", "background", "counting", "replaced"}[r.Intn(4)],
 	}
 }
 
@@ -113,6 +113,12 @@ func (c config) lrunConfig() *lrun.Config {
 		cfg.Ctx = context.Background()
 	case "counting":
 		cfg.Ctx = &neverCtx{open: make(chan struct{})}
+	case "replaced":
+		// the state carried a context that has ended; an undone one replaces it
+		old, cancel := context.WithCancel(context.Background())
+		cancel()
+		cfg.CtxBefore = old
+		cfg.Ctx = context.Background()
 	}
 	return cfg
 }
